@@ -588,13 +588,9 @@ impl Packet {
                                 return Err(MessageError::InvalidOptionLength);
                             }
 
-                            length = (u16::from_be(u8_to_unsigned_be!(
-                                buf,
-                                idx,
-                                idx + 1,
-                                u16
-                            )) + 269)
-                                as usize;
+                            length = usize::from(u16::from_be(
+                                u8_to_unsigned_be!(buf, idx, idx + 1, u16),
+                            )) + 269;
                             idx += 2;
                         }
                         15 => {
